@@ -12,6 +12,12 @@
 (*            "or"    v // {or: [{type: T, rules}, {type: "boolean"}]}          *)
 (*            "ref"   v // {type: "@t"}   with  @t = tv // {rules}              *)
 (*            "refor" v // {or: ["@t", "boolean"]}  with  @t = tv // {rules}    *)
+(*            "reftor" v // {type: "@t"}                                        *)
+(*                     with  @t = tv // {or: [{type: T, rules}, {type: "boolean"}]} *)
+(*                                                                              *)
+(* Composition (ComposeExpect): a project whose root is an object with one      *)
+(* property per part, every part with a user type of its own, is accepted iff   *)
+(* every part is; the harness composes pairs of finished projects.              *)
 EXTENDS RuleSemantics, Json
 
 CONSTANTS Skeletons,     \* subset of {"root","prop","item","or","ref","refor"}
@@ -27,12 +33,12 @@ Init == stage = "skel" /\ skel = "" /\ kind = "" /\ v = 0 /\ tv = 0 /\ rules = {
 ChooseSkeleton(s) == /\ stage = "skel" /\ skel' = s /\ stage' = "value"
                      /\ UNCHANGED <<kind, v, tv, rules>>
 
-NeedsTypeExample == skel \in {"ref", "refor"}
+NeedsTypeExample == skel \in {"ref", "refor", "reftor"}
 ChooseValue(k, i, j) ==
   /\ stage = "value" /\ k \in Kinds
   /\ kind' = k /\ v' = i /\ tv' = j
   /\ (k = "arr") => skel \in {"root", "prop"}                       \* arrays as root or property only
-  /\ (j # 0) <=> (skel \in {"ref", "refor"})
+  /\ (j # 0) <=> NeedsTypeExample
   /\ (k = "num" /\ j # 0) => NumCat[i].dot = NumCat[j].dot          \* same JSON number kind as the type's example
   /\ stage' = "rules" /\ UNCHANGED <<skel, rules>>
 
@@ -73,9 +79,9 @@ AddRule(r) == /\ stage = "rules" /\ Allowed(r)
               /\ rules' = rules \cup {r} /\ UNCHANGED <<stage, skel, kind, v, tv>>
 
 Finish == /\ stage = "rules"
-          /\ (skel = "or") => Has("type")                 \* `or` alternatives carry an explicit type
+          /\ (skel \in {"or", "reftor"}) => Has("type")    \* `or` alternatives carry an explicit type
           /\ Has("precision") => Has("type")              \* precision belongs to the decimal type (compatibility table)
-          /\ (skel \in {"ref","refor"}) => rules # {}      \* a type worth referring to has rules
+          /\ NeedsTypeExample => rules # {}                \* a type worth referring to has rules
           /\ stage' = "done" /\ UNCHANGED <<skel, kind, v, tv, rules>>
 
 RuleNames == DOMAIN Rank
@@ -94,6 +100,8 @@ Sat(i) == CASE kind = "num" -> SatNum(NumCat[i], ValueRules)
             [] kind = "arr" -> SatArr(i, ValueRules)
             [] OTHER -> TRUE
 Expect == IF Sat(v) /\ (tv # 0 => Sat(tv)) THEN "accept" ELSE "reject"
+\* independent parts side by side: es is the sequence of the parts' verdicts
+ComposeExpect(es) == IF \A i \in DOMAIN es : es[i] = "accept" THEN "accept" ELSE "reject"
 
 \* ---- what the replay needs: texts of the values and of the rules in canonical order
 TextOf(k, i) == IF k = "num" THEN NumCat[i].text ELSE IF k = "str" THEN StrCat[i].text ELSE ""
